@@ -160,6 +160,45 @@ void h_emit_step(void)
   }
 }
 
+
+/* ---------------------------------------------------------------------------------------------------------------
+   decode() (inverse BWT list construction, C06 O6.4 / C01 O1.2 decoder side): for every text T of up to IBWT_N bytes, feeding the
+   Burrows-Wheeler transform of T (computed here naively by sorting rotations) through the real decode() and walking the list the
+   way emit() does reproduces T -- on the ordinary path and on the in-situ path used for randomised blocks. */
+#ifndef IBWT_N
+#define IBWT_N 4
+#endif
+#define IBWT_A 3           /* byte values 0..2 */
+static int rot_less(const uint8_t *t, unsigned n, unsigned a, unsigned b)      /* rotation a < rotation b */
+{
+  unsigned k; for (k = 0; k < IBWT_N; k++) if (k < n) { uint8_t x = t[(a + k) % n], y = t[(b + k) % n]; if (x != y) return x < y; } return 0;
+}
+void h_decode_ibwt(void)
+{
+  struct decoder_state ds; static uint32_t tt[IBWT_N + 1];
+  V_IN_ARR(uint8_t, T, IBWT_N);
+  V_IN(unsigned, n);
+  V_IN(int, rnd);
+  unsigned i, j, rot[IBWT_N], idx = 0;
+  V_ASSUME(n >= 1 && n <= IBWT_N);
+  for (i = 0; i < IBWT_N; i++) V_ASSUME(T[i] < IBWT_A);
+  /* naive BWT: sort the rotation start positions (stable selection sort), last column, row of the text itself */
+  for (i = 0; i < IBWT_N; i++) rot[i] = i;
+  for (i = 0; i < IBWT_N; i++) if (i < n) for (j = i + 1; j < IBWT_N; j++) if (j < n && rot_less(T, n, rot[j], rot[i])) { unsigned t = rot[i]; rot[i] = rot[j]; rot[j] = t; }
+  for (i = 0; i < 256; i++) ds.ftab[i] = 0;
+  for (i = 0; i < IBWT_N; i++) if (i < n) { uint8_t last = T[(rot[i] + n - 1) % n]; tt[i] = last; ds.ftab[last]++; }
+  { int found = 0; for (i = 0; i < IBWT_N; i++) if (i < n && !found && !rot_less(T, n, rot[i], 0) && !rot_less(T, n, 0, rot[i])) { idx = i; found = 1; } }   /* a row equal to T */
+  ds.tt = tt; ds.block_size = n; ds.bwt_idx = idx; ds.rand = (rnd != 0);
+  decode(&ds);
+  V_ASSERT(ds.rle_state == 0 && ds.rle_avail == n && ds.rle_crc == 0xFFFFFFFFu, "decode(): the run-length decoder is reset for the new block (state 0, all bytes available, CRC start value)");
+  /* walk the list as emit() does: c = p = t[p >> 8] */
+  uint32_t p = ds.rle_index; int same = 1;
+  for (i = 0; i < IBWT_N; i++) if (i < n) { V_ASSERT((p >> 8) < n, "decode(): list pointers stay inside the block"); p = tt[(p >> 8) < IBWT_N ? (p >> 8) : 0]; if ((uint8_t)p != T[i]) same = 0; }
+  V_ASSERT(same, "decode(): walking the list from the primary index yields the original text (inverse Burrows-Wheeler transform)");
+  if (n == IBWT_N && rnd) V_CANARY("in-situ path (randomised block)");
+  if (n == IBWT_N && !rnd) V_CANARY("ordinary path");
+}
+
 #ifdef VERIF_REPLAY
 int main(void) { HARNESS(); puts("REPLAY-PASS"); return 0; }
 #endif
